@@ -10,7 +10,7 @@ PAUSED = lambda g: [3, 0, 6, g]    # Paused=True
 
 
 def keys_of(ctx, tmpl, ns):
-    return [{"gk": o["gk"], "ns": o["ns"] or ns, "name": o["name"]} for p in ctx.alphabet[tmpl - 1] for o in p["objects"]]
+    return dl.full_keys(ctx, tmpl, ns)
 
 
 def corpus():
@@ -61,6 +61,16 @@ def corpus():
     c = dl.mk_dset(ctx, ctx.h(3), 104, 3, 3, hash=ctx.h(3), conds=[PAUSED(1)], life=1)
     d = dl.mk_dset(ctx, ctx.h(1), 105, 1, 4, hash=ctx.h(1), conds=[AV_T(1), SUCC(1)])
     out.append((ctx, dl.scenario(ctx, dl.mk_dep(ctx, 1, limit=1), [a, b, c, d], [{"op": "dep"}, {"op": "dep"}])))
+    # second half of F-C14: revision 1 controls ConfigMap n1, revision 2 keeps it in ObjectSlice 7; nothing is Available
+    r1 = dl.mk_dset(ctx, ctx.h(1), 101, 1, 1, hash=ctx.h(1), conds=[AV_F(1)], ctrlof=[{"gk": 1, "ns": 1, "name": 1}])
+    r2 = dl.mk_dset(ctx, ctx.h(5), 102, 5, 2, hash=ctx.h(5), prev=[ctx.h(1)], conds=[AV_F(1)])
+    member = pl.mk_obj(1, 1, 1, 7, 8, rev=1)
+    member["owners"] = [[1, ctx.h(1), 101, 1]]
+    steps = [{"op": "dep"}, {"op": "set", "name": ctx.h(1)}, {"op": "dep"}, {"op": "set", "name": ctx.h(1)}, {"op": "set", "name": ctx.h(1)}]
+    out.append((ctx, dl.scenario(ctx, dl.mk_dep(ctx, 5), [r1, r2], steps, store=[member])))
+    # the same with the shared object inline in revision 2 (template B): revision 1 stays
+    r2b = dl.mk_dset(ctx, ctx.h(2), 102, 2, 2, hash=ctx.h(2), prev=[ctx.h(1)], conds=[AV_F(1)])
+    out.append((ctx, dl.scenario(ctx, dl.mk_dep(ctx, 2), [r1, r2b], steps[:3], store=[member])))
     return out
 
 
@@ -73,7 +83,7 @@ def gen_history(r, ctx):
     used = set()
     # earlier revisions
     for _ in range(r.choice([0, 0, 1, 1, 2, 3])):
-        t = r.choice([1, 2, 3])
+        t = r.choice([x for x in (1, 2, 3) if x != t0])
         name = ctx.h(t, r.choice([None, None, 1]))
         if name in used:
             continue
@@ -94,17 +104,18 @@ def gen_history(r, ctx):
         if name not in used:
             used.add(name)
             kind = r.choice(["archived", "diffspec", "foreign", "noctrl", "equal", "equal0", "unselected", "older"])
-            kw = {"archived": dict(tmpl=tnext, revision=rev + 1, life=2), "diffspec": dict(tmpl=(tnext % 3) + 1, revision=rev + 1),
+            tother = [x for x in (1, 2, 3) if x not in (tnext, t0)][0]
+            kw = {"archived": dict(tmpl=tnext, revision=rev + 1, life=2), "diffspec": dict(tmpl=tother, revision=rev + 1),
                   "foreign": dict(tmpl=tnext, revision=rev + 1, ctrl=777), "noctrl": dict(tmpl=tnext, revision=rev + 1, ctrl=0),
                   "equal": dict(tmpl=tnext, revision=rev + 1), "equal0": dict(tmpl=tnext, revision=0),
-                  "unselected": dict(tmpl=tnext, revision=rev + 1, sel=False), "older": dict(tmpl=tnext, revision=max(rev, 1))}[kind]
+                  "unselected": dict(tmpl=tnext, revision=rev + 1, sel=False), "older": dict(tmpl=tnext, revision=rev + 1)}[kind]
             t, rv = kw.pop("tmpl"), kw.pop("revision")
             if kind == "older":
                 # an older revision with the wanted name: put a newer one on top
                 sets.append(dl.mk_dset(ctx, name, uid, t, rv, hash=name, prev=[s["name"] for s in sets if s["sel"]], conds=[AV_T(1)], **kw))
                 uid += 1
                 other = ctx.x(0)
-                sets.append(dl.mk_dset(ctx, other, uid, (t % 3) + 1, rv + 1, hash=other, prev=[s["name"] for s in sets if s["sel"]], conds=[AV_T(1), SUCC(1)]))
+                sets.append(dl.mk_dset(ctx, other, uid, tother, rv + 1, hash=other, prev=[s["name"] for s in sets if s["sel"]], conds=[AV_T(1), SUCC(1)]))
                 rev = rv + 1
             else:
                 sets.append(dl.mk_dset(ctx, name, uid, t, rv, hash=r.choice([name, name, None]),
@@ -223,8 +234,9 @@ def kernel_cases(maxlen, tmpl_orders, limit_mode="cycle"):
 
 def kernel(seed, tier):
     if tier == "quick":
-        return kernel_cases(3, [(1, 2, 3)])
-    return kernel_cases(3, [(1, 2, 3), (2, 1, 2), (3, 2, 1)], "all") + kernel_cases(4, [(1, 2, 3, 2)])[0:0] + kernel4()
+        return kernel_cases(3, [(1, 2, 3)]) + kernel_cases(2, [(1, 5), (2, 6), (5, 1)]) + \
+            [p for i, p in enumerate(kernel_cases(3, [(1, 5, 6)])) if len(p[1]["sets"]) == 3 and i % 4 == 0]
+    return kernel_cases(3, [(1, 2, 3), (2, 1, 2), (3, 2, 1), (1, 5, 6), (2, 6, 5)], "all") + kernel4()
 
 
 def kernel4():
